@@ -18,7 +18,7 @@ JInit == /\ ti \in 1..Len(Traces)
          /\ S = 0 /\ last = 0 /\ g = 0 /\ dirty = FALSE /\ res = 0 /\ hist = <<>>
 JNext == UNCHANGED <<ti, lvars>>
 
-GenOf(r) == [NoGen EXCEPT !.st = "new", !.kind = r.kind, !.u = r.u, !.s = r.s, !.d = r.d, !.unk = r.unk, !.hide = Rng(r.hide)]
+GenOf(r) == [NoGen EXCEPT !.st = "new", !.kind = r.kind, !.u = r.u, !.s = r.s, !.d = r.d, !.unk = r.unk, !.hide = Rng(r.hide), !.fv = r.fv]
 
 RECURSIVE Follow(_, _, _, _)
 Follow(ev, k, T, G) ==
